@@ -516,7 +516,7 @@ func withTrivia(rng *rand.Rand, src []byte, fam int) [][]byte {
 
 // withTriviaKinds: the gaps between tokens are REPLACED: mode -1 mixes everything except lone CR;
 // 0 blanks/tabs, 1 LF, 2 CRLF, 3 block comments (touching both neighbours), 4 line comments, 5 doc
-// comments, 6 lone CR, 7 mix incl. lone CR, 8 glue (no trivia wherever the two tokens may touch)
+// comments, 6 lone CR, 7 mix incl. lone CR, 8 glue (no trivia wherever the two tokens may touch), 9 empty comments
 func withTriviaKinds(rng *rand.Rand, src []byte, fam int, mode int) [][]byte {
 	maj, min := uint64(7), uint64(4)
 	if fam == 5 {
@@ -526,7 +526,7 @@ func withTriviaKinds(rng *rand.Rand, src []byte, fam int, mode int) [][]byte {
 	if pan != "" || len(lt) == 0 {
 		return nil
 	}
-	trivia := []string{" ", "  ", "\n", "\r\n", "\t", " /* c */ ", "\n// l\n", " # h\n", "/** d */"}
+	trivia := []string{" ", "  ", "\n", "\r\n", "\t", " /* c */ ", "\n// l\n", " # h\n", "/** d */", "#\n", "//\n"}
 	switch mode {
 	case 0:
 		trivia = []string{" ", "\t", "   ", " \t "}
@@ -546,6 +546,8 @@ func withTriviaKinds(rng *rand.Rand, src []byte, fam int, mode int) [][]byte {
 		trivia = append(trivia, "\r", "// c\r")
 	case 8:
 		trivia = []string{""}
+	case 9: // the shortest comments there are: an opener directly followed by the line end / the closer
+		trivia = []string{"#\n", "//\n", "#\r\n", "//\r\n", "/**/", "#\n#\n", "#\n# c\n#\n", "//\n//\n", "# \n", "/***/"}
 	}
 	var out [][]byte
 	nv := 2
